@@ -2,8 +2,8 @@
 import vlib
 from checks import tracker_common as tc
 MANIFEST = dict(level="model_checking", design="4 (C12)",
-    technique="TLA+ spec (Visual.tla): operational cascade checked by TLC to lie inside the declarative C12 outcome on every generated step; TLC-enumerated / simulated VisualSORT histories replayed into VisualSort and BatchVisualSort",
-    text="Visual.tla models the use gates (feature present, quality), the minimal number of collected features, votes within the visual threshold, claim weights, 'a track goes to its heaviest claimant', 'a detection's heaviest claim decides', the positional fallback over tracks not taken and the voting type; TLC asserts on every generated step that the outcome satisfies the declarative C12 conditions (a visual attachment is a claim of maximal weight, a loser starts a new track, no positional attachment to a visually taken track, no track twice). Exhaustive short histories (look-alike and overlapping objects on one slot told apart only by feature symbols, all qualities around the use / collect thresholds) and 7..40-step simulations over several option sets are replayed into the real VisualSort / BatchVisualSort; ids, lengths, epochs, voting types, galleries and collected counts are compared.",
+    technique="TLA+ specs (Visual.tla, VisualTrace.tla): operational cascade checked by TLC to lie inside the declarative C12 outcome on every generated step; TLC-enumerated / simulated VisualSORT histories replayed into VisualSort and BatchVisualSort; recorded free-world runs of the real trackers validated by TLC against the trace specification",
+    text="Visual.tla models the use gates (feature present, quality), the minimal number of collected features, votes within the visual threshold, claim weights, 'a track goes to its heaviest claimant', 'a detection's heaviest claim decides', the positional fallback over tracks not taken and the voting type; TLC asserts on every generated step that the outcome satisfies the declarative C12 conditions (a visual attachment is a claim of maximal weight, a loser starts a new track, no positional attachment to a visually taken track, no track twice). Exhaustive short histories (look-alike and overlapping objects on one slot told apart only by feature symbols, all qualities around the use / collect thresholds) and 7..40-step simulations over several option sets are replayed into the real VisualSort / BatchVisualSort; ids, lengths, epochs, voting types, galleries and collected counts are compared. Free world (R2): random crossing look-alike objects (feature symbols of three appearance families; Euclidean and cosine metrics, IoU and Mahalanobis, min votes 1..3, minimal track length 1..3, own-area and minimal-area gates) run through the real VisualSort / BatchVisualSort; every call is recorded with the galleries of the scene's stored tracks, the detections' symbols / qualities / areas / own shares and the measured positional weights, and TLC re-derives claims, claim weights, winners, losers, the positional fallback among the tracks not taken and the voting types (spec/tracker/VisualTrace.tla); calls in which a logged quantity lies within its tolerance of a threshold, or two competing claim weights within a margin, are checked structurally only (counted).",
     note="R1 slot world: appearance matches across slots are excluded (they move the Kalman estimate off the lattice). Steps with tied claim weights or tied positional optima are not generated. Own-area shares are exact in the slot world (a detection shares its slot with another one of the call, or not); minimal area is exercised with a bound between the areas of the slot boxes; Euclidean and cosine metrics both (feature symbols are points with a constant distance / similarity table in the specification).")
 LEVEL = MANIFEST["level"]
 RULE = ("behaviours = TLC enumeration (depth 2-3) and seeded simulations of GenVis over several option sets; non-trivial = a step "
